@@ -1,7 +1,7 @@
 """C11 — refine_ subdivides 1-to-4 preserving geometry and topology."""
 import numpy as np
 
-from .. import repo, core, gen, wire
+from .. import repo, core, gen, wire, extract
 from ..base import BaseCheck
 from .C09 import brute, impl_loops, loops_precondition
 from lapy import TriaMesh
@@ -66,6 +66,9 @@ class Check(BaseCheck):
         yield dict(v=np.round(ov * 3), t=ot, it=1, name="int-octahedron", vdtype="int32")
         gv, gt = gen.grid(2, 2)
         yield dict(v=gv, t=gt, it=2, name="int-grid", vdtype="int16")
+
+    def translate(self):
+        extract.gen_refine()
 
     def correspond(self, drv, stats):
         fails = []
